@@ -8,6 +8,7 @@
   * it holds in every history in which no track is in flight across a change.
 -/
 import KiraModel.Model.Conc.SampleRateRace
+import KiraModel.Props.C16_time
 
 namespace K
 open SR
